@@ -26,7 +26,7 @@ PROPS = {
     'C07': P('proof', ['C07'], 'no UB: loop-safety invariants, constructor invariant, exp2 argument range for every bit pattern + outcome-class correspondence with hook assertions'),
     'C08': P('proof', ['C08'], 'lossless code round trip: theorems + correspondence + exhaustive 8-bit search in the thorough tier'),
     'C09': P('proof', ['C09'], 'YUV->XYB->YUV budget: dims/config theorems, numeric budget partial (see partial) + correspondence + search', partial=['numeric budget max(1,0.015*(2^n-1)): not proved; correspondence + oracle']),
-    'C10': P('proof', ['C10', 'C10b', 'C10c', 'C10d'], 'gamma->linear->gamma: theorems as listed + correspondence + search', partial=['round-trip bound over all floats of [0,1] is PROVED for the power-law family (BT.1886 + 4 aliases, BT.470M, BT.470BG), for Log100 and Log316 (libm log10 hypothesis), for HLG (libm ln hypothesis) and Linear; for sRGB, xvYCC and PQ it is not proved: correspondence + exhaustive oracle (thorough)']),
+    'C10': P('proof', ['C10', 'C10b', 'C10c', 'C10d', 'C10e', 'C10f', 'C10g'], 'gamma->linear->gamma: theorems as listed + correspondence + search', partial=['round-trip bound over all floats of [0,1] is PROVED for the power-law family (BT.1886 + 4 aliases, BT.470M, BT.470BG), for Log100 and Log316 (libm log10 hypothesis), for HLG (libm ln hypothesis), for sRGB, xvYCC and Linear (C10.roundtrip13: 13 of 14); for PQ it is not proved: correspondence + exhaustive oracle (thorough)']),
     'C11': P('proof', ['C11'], 'pointwise / layout independence: loop invariants over all geometries + correspondence on sizes 1..64 + pointwise search'),
     'C12': P('proof', ['C12'], 'constructors: iff theorems + correspondence on the geometry stream + independent contract oracle'),
     'C13': P('proof', ['C13', 'C13b'], 'totality and code validity: theorems + correspondence on special floats + search in optimised and checked builds', builds=['default', 'checked'], partial=['finite inputs in [0,1]^3 give finite outputs: proved for the transfer stage of 13 of the 14 characteristics (C13.curves_finite, corollary of C03.accuracy; log/HLG linear->gamma under the libm hypotheses), for the other stages and for PQ oracle only; overflow/debug-checked builds: usize arithmetic is modelled on Nat, the checked build is exercised by correspondence + oracle']),
